@@ -95,6 +95,46 @@ def mark(cases_path: str, flags: dict) -> None:
         f.write("\n".join(lines) + "\n")
 
 
+LEVELB = {"C02", "C03", "C06", "C09"}
+LEVELB_CASES = {"quick": 300, "thorough": 3000}
+
+
+def level_b_drift(rep: Report, wd: str, cases_path: str, tier: str, rng: random.Random) -> None:
+    """Binds the implementation-shaped model (spec/Modify.tla) to the code: a
+    subsample of the cases is run with the primitive observer (entry/exit hooks
+    of split_block / join_blocks / remove_block) and spec/TraceModify.tla checks
+    every observed primitive execution against the model.  Drift is reported in
+    the evidence; it is never a verdict."""
+    lines = [l for l in open(cases_path) if l.strip()]
+    rng.shuffle(lines)
+    sub = os.path.join(wd, "levelb_cases.ndjson")
+    with open(sub, "w") as f:
+        f.writelines(lines[:LEVELB_CASES[tier]])
+    shards = core.split_file(sub, 8, wd, "lbc")
+    outs = core.run_module_parallel("harness.g1.runner", shards, wd, "lb",
+                                    extra_env={"VERIF_G1_MODE": "levelb"})
+    merged = os.path.join(wd, "levelb_events.ndjson")
+    with open(merged, "w") as out:
+        for of in outs:
+            with open(of) as f:
+                out.writelines(f)
+    tsh = core.split_file(merged, 8, wd, "lbe")
+    verdicts = tlc.validate_sharded("TraceModify.tla", "TraceModify.cfg", tsh, jobs=8)
+    drift = [v for v in verdicts if v["drift"]]
+    by_op: Dict[str, int] = {}
+    for v in verdicts:
+        by_op[v["op"]] = by_op.get(v["op"], 0) + 1
+    rep.extra["level_b"] = {
+        "model": "spec/Modify.tla (split_block / join_blocks / remove_block)",
+        "primitive_executions_validated": len(verdicts), "by_primitive": by_op,
+        "drift": len(drift),
+        "drift_samples": [{"id": v["id"], "op": v["op"], "fields": v["fields"]} for v in drift[:5]],
+    }
+    if drift:
+        print(f"MODEL-DRIFT {rep.prop}: {len(drift)} of {len(verdicts)} primitive executions differ from "
+              f"spec/Modify.tla (information only), e.g. {drift[0]['id']} {drift[0]['op']} {drift[0]['fields']}")
+
+
 def run(prop: str, tier: str, replay: str = None) -> int:
     rep = Report(prop, tier)
     rng = random.Random(core.seed() * 1000003 + hash(prop) % 1000)
@@ -137,6 +177,8 @@ def run(prop: str, tier: str, replay: str = None) -> int:
                 c = json.loads(line)
                 case_by_id[c["id"]] = c
         judge(rep, prop, verdicts, case_by_id)
+        if prop in LEVELB and not replay:
+            level_b_drift(rep, wd, cases, tier, rng)
         rep.rule = ("cases = states of GenG1.tla (shape x batch of non-overlapping requests) "
                     "sampled by seed; non-trivial = non-empty batch with at least one "
                     f"{prop}_* clause in its domain; distinct by (shape, batch, registration order)")
